@@ -72,6 +72,40 @@ Theorem C01_block_fee_exact : forall fees,
 Proof. exact block_fee_exact. Qed.
 Print Assumptions C01_block_fee_exact.
 
+(* Every transaction type that reaches CheckTransactionFee - whatever its own
+   CheckTransactionOutput override does (ExchangeVotes, SideChainPow with
+   inputs, the proposal and withdrawal types, any future override) - is bounded
+   by the fee check alone. *)
+Theorem C01_fee_check_bounds : forall k pr refs outs f,
+  0 <= p_minfee pr -> check_fee k pr refs outs = Some f ->
+  exact_sum outs <= exact_sum refs.
+Proof. exact fee_check_bounds. Qed.
+Print Assumptions C01_fee_check_bounds.
+
+(* The types whose SpecialContextCheck ends validation before the fee check and
+   that may carry outputs.  New-style SideChainPow (no inputs): its single
+   output has value 0. *)
+Theorem C01_sidepow_new_creates_nothing : forall outs,
+  sidepow_new_outputs_ok outs = true -> exact_sum (map o_val outs) = 0.
+Proof. exact sidepow_new_creates_nothing. Qed.
+Print Assumptions C01_sidepow_new_creates_nothing.
+
+(* CRCAppropriation: with int64 outputs and non-negative referenced outputs
+   (every UTXO was an accepted output), an accepted appropriation spends only
+   CR-assets outputs and its exact output total does not exceed - and, when the
+   input total is below 2^63, equals - the exact input total, although the code
+   compares wrapping sums. *)
+Theorem C01_appropriation_moves_not_creates : forall pr h0 h1 needed amount outs refs,
+  accept_approp pr h0 h1 needed amount outs refs = true ->
+  Forall (fun o => o_val o <= i64_max) outs ->
+  Forall (fun r => 0 <= fst r) refs ->
+  exact_sum (map o_val outs) <= exact_sum (map fst refs) /\
+  (exact_sum (map fst refs) <= i64_max ->
+   exact_sum (map o_val outs) = exact_sum (map fst refs)) /\
+  Forall (fun r => snd r = true) refs.
+Proof. exact approp_moves_not_creates. Qed.
+Print Assumptions C01_appropriation_moves_not_creates.
+
 (* The defect that was repaired: with the former wrapping sums, four
    individually valid outputs of 2^62 sela against one input of 10000 sela
    passed both checks; the repaired composition rejects the same input. *)
@@ -110,3 +144,22 @@ Example C01_corr_sane :
               CFeeMap 5 [(5, true); (7, false)] [(2, true)] 3;
               CBlock 6 [9223372036854775807; 1] (-9223372036854775808)] = [2%N; 4%N].
 Proof. vm_compute. reflexivity. Qed.
+
+(* non-vacuity of the early-ending types: an appropriation of 30 out of CR
+   assets 100 (70 back) is accepted, one that pays out 101 is not; inputs that
+   wrap (2^63-1 twice plus 2) against outputs 0+0 are accepted by the wrapping
+   comparison and still create nothing; a new-style side-chain pow is accepted
+   with its zero output only *)
+Example C01_early_end_nonvacuous :
+  let pr := P 2000000 88812 1405000 true 100 in
+  let e v := O v true 0 true 0 in
+  accept_approp pr true true true 30 [e 30; e 70] [(60, true); (40, true)] = true /\
+  accept_approp pr true true true 30 [e 30; e 71] [(60, true); (40, true)] = false /\
+  accept_approp pr true true true 30 [e 30; e 70] [(60, true); (40, false)] = false /\
+  accept_approp pr true true false 30 [e 30; e 70] [(100, true)] = false /\
+  accept_approp pr true true true 0 [e 0; e 0]
+     [(9223372036854775807, true); (9223372036854775807, true); (2, true)] = true /\
+  sidepow_new_outputs_ok [O 0 true 33 false 0] = true /\
+  sidepow_new_outputs_ok [O 1 true 33 false 0] = false /\
+  sidepow_new_outputs_ok [] = false.
+Proof. vm_compute. repeat split; reflexivity. Qed.
